@@ -284,6 +284,7 @@ func oneQuery(run *vlib.Run, sd *gen.SchemaDesc, mono *graphql.Schema, p *partit
 		o = gen.MergeHeavy(o)
 	}
 	o.UnionSecondFragment = os.Getenv("C06_NO_UNION2") == ""
+	o.UnionSelfFragment = true
 	if os.Getenv("C06_NO_UNIONS") != "" {
 		o.NoUnions = true
 	}
